@@ -172,6 +172,14 @@ def extract_reuse_info(text: str) -> ReuseInfo:
                 )
             )
             raise
+        except IndexError as error:
+            # The parser stumbles over some malformed expressions, e.g. '()'.
+            _LOGGER.error(
+                _("Could not parse '{expression}'").format(
+                    expression=expression
+                )
+            )
+            raise ExpressionError(str(error)) from error
     for line in text.splitlines():
         match = _first_copyright_match(line)
         if match is not None:
